@@ -83,9 +83,14 @@ impl Drop for Gauge {
 pub struct WorkerGuard;
 
 impl WorkerGuard {
-    pub fn enter() -> Self {
+    /// The worker is counted as alive from the moment it is spawned (`spawned`), not from
+    /// its first poll.
+    pub fn spawned() {
         PROBE.workers_started.fetch_add(1, Ordering::SeqCst);
         PROBE.workers_alive.fetch_add(1, Ordering::SeqCst);
+    }
+
+    pub fn enter() -> Self {
         WorkerGuard
     }
 }
